@@ -276,4 +276,52 @@ theorem globMatch_star_lit_star (c : UInt8) (s : Bytes) :
     globMatch [.star, .cls false [c], .star] s = s.contains c := by
   rw [globMatch_star, anySuffix_lit_star]
 
+/-! ### sequences of quoted words -/
+
+/-- The canonical quoted form of a value: `'…'` with every `'` written as `'\''`. -/
+def Q (v : Bytes) : Bytes := [SQ] ++ v.flatMap escQ ++ [SQ]
+
+/-- A reader state at a word boundary or inside a purely literal word. -/
+def RS.Good (st : RS) : Prop := st.open_ ∧ st.segs = [] ∧ (st.mode = .blank → st.lit = [])
+
+/-- The words that are complete once a blank (or the end of the text) follows. -/
+def RS.wordsDone (st : RS) : List Word := if st.mode = .word then st.endWord.done else st.done
+
+theorem good_init : RS.Good {} := by simp [RS.Good, RS.open_]
+
+theorem read_sp_quoted (o : Bytes) (h0 : (0 : UInt8) ∉ o) (st : RS) (hg : st.Good) :
+    (readFrom st (SP :: Q o)).Good ∧ (readFrom st (SP :: Q o)).wordsDone = st.wordsDone ++ [[.lit o]] := by
+  obtain ⟨hopen, hsegs, hlit⟩ := hg
+  have e : SP :: Q o = [SP] ++ Q o := rfl
+  rw [e, readFrom_append, read_blank st hopen]
+  obtain ⟨mode, done, segs, lit, name⟩ := st
+  simp only [] at hsegs hlit
+  subst hsegs
+  rcases hopen with h | h <;> simp only [] at h <;> subst h
+  · have hl : lit = [] := hlit rfl
+    subst hl
+    rw [if_neg (by simp), Q, read_quoted o h0 _ (Or.inl rfl)]
+    simp [RS.Good, RS.open_, RS.wordsDone, RS.endWord, RS.curWord]
+  · rw [if_pos rfl, Q, read_quoted o h0 _ (Or.inl rfl)]
+    simp [RS.Good, RS.open_, RS.wordsDone, RS.endWord, RS.curWord]
+
+/-- Reading ` 'q₁' 'q₂' …` adds exactly the words q₁ q₂ …, all literal. -/
+theorem read_quoted_list (items : List Bytes) (h0 : ∀ o ∈ items, (0 : UInt8) ∉ o) (st : RS) (hg : st.Good) :
+    (readFrom st (items.flatMap fun o => SP :: Q o)).Good ∧
+    (readFrom st (items.flatMap fun o => SP :: Q o)).wordsDone = st.wordsDone ++ items.map (fun o => [Seg.lit o]) := by
+  induction items generalizing st with
+  | nil => simp [readFrom, hg]
+  | cons o os ih =>
+    have ho := h0 o (by simp)
+    have hos : ∀ x ∈ os, (0 : UInt8) ∉ x := fun x hx => h0 x (by simp [hx])
+    obtain ⟨g1, w1⟩ := read_sp_quoted o ho st hg
+    obtain ⟨g2, w2⟩ := ih hos _ g1
+    rw [List.flatMap_cons, readFrom_append]
+    exact ⟨g2, by rw [w2, w1]; simp⟩
+
+/-- The result of `shWords` seen from a Good final state. -/
+theorem finish_good (st : RS) (hg : st.Good) : finish st = .ok st.wordsDone := by
+  obtain ⟨mode, done, segs, lit, name⟩ := st
+  rcases hg.1 with h | h <;> simp only [] at h <;> subst h <;> simp [finish, RS.wordsDone]
+
 end XzVerif.Shell
